@@ -20,6 +20,7 @@ RULE = ("clique covers from (a) random clique hypergraphs, (b) real covers produ
         "from 1; overlapping cliques; cliques as lists or tuples; non-trivial = >=2 sizes present and >=1 absent size "
         "below the maximum; distinct = SHA-1 of the concrete cover")
 RULE += ("; rounds k-l added: " + 'twin-column covers: every vertex in exactly r cliques of each of two or three sizes (prism-like; r random partitions per size)')
+RULE += '; round m: covers with one-vertex cliques (12%)'
 ASSUMPTIONS = ["vertex ids contiguous from 0 or 1 and every vertex occurs in the cover (as the property stipulates)",
                "probabilities compared at 1e-12"]
 HEADLINE = ["covers", "src_random", "src_eecc", "src_mpcc", "src_adversarial", "src_hub", "src_regular", "one_based", "absent_sizes_ge2", "size_ge9", "vertices_recounted", "pipeline_runs", "pipeline_motifs", "covers_written_into_the_same_list_object"]
